@@ -341,6 +341,10 @@ class Fn:
             return "(oopp O %s)" % self.tr_num(e.operand, env)
         if isinstance(e, ast.Call):
             f = T.dotted(e.func)
+            if f in ("min", "max") and len(e.args) == 2 and not e.keywords:
+                return "(o%s O %s %s)" % (f, self.tr_num(e.args[0], env), self.tr_num(e.args[1], env))
+            if f == "angle_3pts" and len(e.args) == 3 and not e.keywords and getattr(self, "ang3", None):
+                return "(%s %s %s %s)" % (self.ang3, self.tr_vec(e.args[0], env), self.tr_vec(e.args[1], env), self.tr_vec(e.args[2], env))
             if f in ("np.cos", "math.cos", "cos") and len(e.args) == 1:
                 return "(ocos O %s)" % self.tr_num(e.args[0], env)
             if f in ("np.sin", "math.sin", "sin") and len(e.args) == 1:
@@ -368,6 +372,8 @@ class Fn:
                 return self.tr_vec(e.args[0], env)
             if f == "Vec.normalized" and len(e.args) == 1:
                 return "(vnormalized O %s)" % self.tr_vec(e.args[0], env)
+            if f == "rotate_2d" and len(e.args) == 2:
+                return "(rotate_2d O %s %s)" % (self.tr_vec(e.args[0], env), self.tr_num(e.args[1], env))
             if f == "rotate_around_axis" and len(e.args) == 3:
                 return "(rotate_around_axis O %s %s %s)" % (self.tr_vec(e.args[0], env), self.tr_vec(e.args[1], env),
                                                             self.tr_num(e.args[2], env))
@@ -795,6 +801,11 @@ class Fn:
                 elif isinstance(x, (ast.For, ast.While)):
                     own_jumps(x.orelse)      # jumps inside an inner loop belong to that loop
         own_jumps(body)
+        # coords mode: one loop-carried vector  (x = f(x); ...; M.vertices.append(x))  becomes a scan over the index list
+        if mode == "coords":
+            cv = [n for n in assigned_names(body) if env.get(n)[0] == "vec"]
+            if cv:
+                return self.scan_loop(s, body, cv, env2, var, dom)
         # loop-carried integers are not supported: a name assigned in the body must be assigned before any read
         carried = assigned_names(body) - {var}
         env2 = env2.taint([n for n in carried if env.get(n)[0] is not None and n not in (var,)])
@@ -804,6 +815,45 @@ class Fn:
         if inner == "[]":
             return "[]"
         return "(flat_map (fun %s => %s) %s)" % (q(var), inner, dom)
+
+    def scan_loop(self, s, body, cv, env2, var, dom):
+        if len(cv) != 1:
+            self.fail(s, "more than one loop-carried vector")
+        c = cv[0]
+        envb = env2
+        term = envb.get(c)[1]
+        init = term
+        cur = q(c)
+        envb = envb.bind(c, "vec", cur)
+        lets = []
+        appended = False
+        for st in body:
+            ca = self.container_append(st)
+            if ca is not None:
+                cont, kind, payload = ca
+                if cont != "vertices":
+                    continue
+                if appended or kind != "elems" or len(payload) != 1 or not (isinstance(payload[0], ast.Name) and payload[0].id == c):
+                    self.fail(st, "unsupported vertex append in a loop with carried state")
+                appended = True
+                continue
+            if appended:
+                if self.mentions_mesh(st) or (isinstance(st, ast.Assign) and c in assigned_names([st])):
+                    self.fail(st, "statement after the vertex append in a loop with carried state")
+                continue
+            if not (isinstance(st, ast.Assign) and len(st.targets) == 1 and isinstance(st.targets[0], ast.Name)
+                    and st.targets[0].id == c):
+                self.fail(st, "unsupported statement in a loop with carried state")
+            val = self.tr_vec(st.value, envb)
+            k = len(lets) + 1
+            lets.append(("%s_%d" % (q(c), k), val))
+            envb = envb.bind(c, "vec", "%s_%d" % (q(c), k))
+        if not appended or not lets:
+            self.fail(s, "loop with carried state appends no vertex")
+        bodyt = lets[-1][0]
+        for nm, val in reversed(lets):
+            bodyt = "(let %s := %s in %s)" % (nm, val, bodyt)
+        return "(vscan (fun %s %s => %s) %s %s)" % (cur, q(var), bodyt, init, dom)
 
     def if_stmt(self, s, env, mode, top, loopdepth):
         touches = self.mesh is not None and (self.mentions_mesh_mutation(s) or self.touches_alias(s))
